@@ -150,9 +150,19 @@ fn gen_script(p: &mut Prng) -> Script {
             let use_helper = p.chance(3, 4);
             let use_const = p.chance(1, 2);
             let use_opt = p.chance(1, 2);
+            let use_rconst = p.chance(1, 2);
             let mut s = String::new();
             if use_const {
                 s += &format!("const N: u32 = {};\n", p.below(100));
+            }
+            if use_rconst {
+                // a by-reference constant without heap parts: a local copy of
+                // it is modified, the constant itself must stay what it was
+                s += &format!(
+                    "record C2 {{ a: u32, b: u32 }}\nconst RC: C2 = C2 {{ a: {}, b: {} }};\n",
+                    p.below(50),
+                    p.below(50)
+                );
             }
             let gvars: &[&str] = if use_const { &["x", "N"] } else { &["x"] };
             if use_helper {
@@ -181,6 +191,9 @@ fn gen_script(p: &mut Prng) -> Script {
                     expr(p, &["q.a", "q.b", "acc"], 2)
                 );
             }
+            if use_rconst {
+                s += "  let rr = RC;\n  rr.a = rr.a + x;\n  let rq = RC;\n  acc = acc + rr.a + rq.a * 3 + rq.b;\n";
+            }
             if use_opt {
                 s += &format!(
                     "  let o: u32? = if acc < {} {{ Some(acc) }} else {{ None }};\n  acc = match o {{ Some(v) => v + 1, None => {} }};\n",
@@ -191,7 +204,7 @@ fn gen_script(p: &mut Prng) -> Script {
             s += "  acc\n}\n";
             Script {
                 family: "scalar",
-                flags: format!("loop={use_loop} helper={use_helper} const={use_const} opt={use_opt}"),
+                flags: format!("loop={use_loop} helper={use_helper} const={use_const} opt={use_opt} rconst={use_rconst}"),
                 sig: Sig::U32,
                 src: s,
                 ticks_per_call: 0,
@@ -550,7 +563,10 @@ fn stress_case(seed: u64, index: u64, tiername: &str, drv: &mut Driver, rep: &mu
         if sc.family == "tick" {
             continue;
         }
-        check_lir!(drv, rep, &sc.src, &rt, &input);
+        if !check_lir!(drv, rep, &sc.src, &rt, &input) {
+            // never execute code the verified checker rejected
+            return;
+        }
         side.push(sc);
     }
 
@@ -985,6 +1001,10 @@ fn main() {
                 println!("START {index}");
                 let _ = std::io::stdout().flush();
                 stress_case(seed, index, &tiername, &mut drv, &mut rep);
+                // cumulative report after every case: a crash in a later
+                // case must not lose what was found before it
+                rep.emit();
+                let _ = std::io::stdout().flush();
             }
             rep.emit();
         }
